@@ -164,13 +164,17 @@ def n_input_parts(spec, n):
 
 
 # ----------------------------------------------------------------------------- the property
-def _pack_and_check(gdf, gcols, ocols, spec, k, p, expected, ref, fails, labels, tag, prepack=None, via_map=False):
+def _pack_and_check(gdf, gcols, ocols, spec, k, p, expected, ref, fails, labels, tag, prepack=None, via_map=False, window=None):
     """returns sorted (index, id, row) list of the packed result, or None when the call raised"""
     from spatialpandas.dask import DaskGeoDataFrame
-    detail = f'partitioning {tag}={spec} npartitions={k} p={p}'
+    detail = f'partitioning {tag}={spec} npartitions={k} p={p}' + (f' cx-window={window}' if window else '')
     ddf = make_ddf(gdf, spec)
     if not isinstance(ddf, DaskGeoDataFrame):
         raise RuntimeError(f'harness: input is {type(ddf)}')
+    if window:
+        # a history: the frame that is packed is a cx selection of a larger frame (gdf here is that larger frame; expected
+        # and ref describe the selected rows). The selection's own total bounds count, not those of its source partitions
+        ddf = lib(['C09', 'cx'], lambda: ddf.cx[window[0]:window[2], window[1]:window[3]])
     alt_refs = []
     if via_map:
         # an intermediate map_partitions without meta=: Dask rebuilds the meta (first geometry column active) while the
@@ -252,6 +256,21 @@ def evaluate(case):
         gdf = gdf.iloc[order]
         if gdf._geometry != fr['active']:
             raise RuntimeError('harness: iloc lost the active geometry')
+    window, source = None, gdf
+    if case.get('cx_before') and n >= 2 and not case.get('via_map'):   # (which column a meta-less frame selects by is ambiguous)
+        tb = [float(v) for v in gdf.geometry.total_bounds]
+        if all(v == v for v in tb) and tb[0] < tb[2] and tb[1] < tb[3]:
+            f = case['cx_before']
+            window = [tb[0] - 1.0, tb[1] - 1.0, tb[0] + (tb[2] - tb[0]) * f, tb[3] + 1.0]
+            keep = np.asarray(gdf.geometry.intersects_bounds(tuple(window)))
+            if keep.any():
+                gdf = gdf[keep]
+                if gdf._geometry != fr['active']:
+                    raise RuntimeError('harness: mask lost the active geometry')
+                n = len(gdf)
+                ref = reference_distances('C09', gdf, p)
+            else:
+                window = None
     expected = {i: rj for _, i, rj in frame_rows(gdf, gcols, ocols)}
     if len(expected) != n:
         raise RuntimeError('harness: ids not unique')
@@ -270,6 +289,8 @@ def evaluate(case):
         labels.append('all-active-geometries-inert')
     if case.get('presort'):
         labels.append('presorted-input')
+    if window:
+        labels.append('input-is-a-cx-selection' + ('(proper-subset)' if len(gdf) < len(source) else ''))
     fails = []
     results = []
     for tag in ('a', 'b'):
@@ -277,9 +298,9 @@ def evaluate(case):
         labels.append(f'in-parts{n_input_parts(spec, n)}' if not isinstance(spec, dict) else 'in:from_pandas')
         if not isinstance(spec, dict) and 0 in spec:
             labels.append('empty-input-partition')
-        results.append(_pack_and_check(gdf, gcols, ocols, spec, k, p, expected, ref, fails, labels, tag,
+        results.append(_pack_and_check(source if window else gdf, gcols, ocols, spec, k, p, expected, ref, fails, labels, tag,
                                        prepack=case.get('prepack') if tag == 'b' else None,
-                                       via_map=bool(case.get('via_map')) and tag == 'a'))
+                                       via_map=bool(case.get('via_map')) and tag == 'a', window=window))
     if results[0] is not None and results[1] is not None and results[0] != results[1] and not case.get('via_map'):
         diff = next((x, y) for x, y in zip(results[0] + [None], results[1] + [None]) if x != y)
         fails.append((['C09', 'partitioning-dependence'], f'parts_a={case["parts_a"]} parts_b={case["parts_b"]} k={k} p={p}: first difference {str(diff)[:400]}'))
@@ -357,7 +378,8 @@ def _case(draw):
     n = fr['n']
     prepack = [draw(st.sampled_from(range(1, 5))), draw(st.sampled_from(range(1, 13))), draw(st.booleans())] if draw(st.sampled_from(range(5))) == 0 else None
     return {'frame': fr, 'presort': presort, 'parts_a': draw(partitionings(n)), 'parts_b': draw(partitionings(n)),
-            'npartitions': k, 'p': p, 'prepack': prepack, 'via_map': draw(st.sampled_from(range(6))) == 0}
+            'npartitions': k, 'p': p, 'prepack': prepack, 'via_map': draw(st.sampled_from(range(6))) == 0,
+            'cx_before': draw(st.sampled_from([None, None, None, 0.25, 0.5, 0.75]))}
 
 
 def strategy(tier):
